@@ -65,6 +65,10 @@ def line_of(it):
         s = "warnings.warn('w')"
     elif k == 'fail':
         s = "raise ValueError('boom')"
+    elif k == 'filtfail':
+        # the doctest turns warnings into errors and then FAILS (only ever the LAST statement): under on_error='raise' the run
+        # ends by propagating, and the filters must be put back all the same
+        s = "warnings.simplefilter('error'); raise ValueError('boom')"
     elif k == 'exit':
         s = '_exit()'
     elif k == 'dir':
@@ -80,7 +84,7 @@ def code_of(it):
     k, a = it['kind'], it['args']
     return {'bind': lambda: 'b.%s.%d' % (a[0], a[1]), 'show': lambda: 's.%s' % a[0], 'inc': lambda: 'i.%s' % a[0],
             'probe': lambda: 'q.%s' % a[0], 'say': lambda: 'p.%d' % a[0], 'mute': lambda: 'm', 'mutec': lambda: 'm', 'filt': lambda: 'z',
-            'warn': lambda: 'z', 'fail': lambda: 'f', 'exit': lambda: 'x', 'dir': lambda: 'n'}[k]()
+            'warn': lambda: 'z', 'fail': lambda: 'f', 'filtfail': lambda: 'f', 'exit': lambda: 'x', 'dir': lambda: 'n'}[k]()
 
 
 def own_output(it, names):
@@ -164,6 +168,8 @@ def gen_doc(rng, k, rich=True):
         items.append(item('mute'))
     elif r < 0.60 and rich:
         items.append(item('mutec'))
+    elif r < 0.68 and rich:
+        items.append(item('filtfail'))
     return items
 
 
